@@ -2,6 +2,8 @@ package sim
 
 import (
 	"fmt"
+
+	"google.golang.org/grpc/status"
 )
 
 // M-wire / M-window (DESIGN.md appendix A): a protocol automaton per carrier
@@ -51,6 +53,7 @@ type wireStream struct {
 	c2sDataDelivered   int64
 	afterClose         int
 	closeMidMsg        bool
+	closeCode          int32
 	cancelDeliver      int64
 	firstAfterClose    int64
 	firstAfterCloseF   *FrameInfo
@@ -192,6 +195,9 @@ func OracleWire(w *World, h *History) {
 			hr := r.Handlers[0]
 			if st.cancelDeliver != 0 && st.cancelDeliver < st.closeEmit {
 				continue // the client's cancel ended the stream, not the handler
+			}
+			if int32(status.Code(hr.Err)) != st.closeCode {
+				continue // the close frame does not carry the handler's own result: something else ended the stream
 			}
 			if st.closeMidMsg && hr.End != 0 && hr.End < st.closeEmit && !hr.CtxDoneAtEnd {
 				w.AddViolation("C13", "close-mid-message", fmt.Sprintf("conn %d stream %d: close_stream (#%d) of a stream whose handler had ended (#%d) while a response message was incomplete on the wire",
@@ -448,6 +454,7 @@ func wireS2C(w *World, c *wireConn, seq int64, emit bool, f *FrameInfo, viol vio
 		st.closes++
 		if st.closes == 1 {
 			st.closeEmit = seq
+			st.closeCode = f.Code
 		}
 		if judge {
 			if st.closes > 1 {
